@@ -3,7 +3,8 @@
     of Gen/C16_Fields.v), Model/C16_Heap.v (copy / deepcopy), Model/C16_Codec.v (VCF import, data-frame codecs). *)
 From Coq Require Import String PrimFloat Permutation Sorted.
 From PV Require Import Lib.Common Lib.FloatK Lib.C16_Spec Model.C16_Store Model.C16_Heap Model.C16_Codec Gen.C16_Fields
-                       Proofs.C16_Utf8 Proofs.C16_Store Proofs.C16_Nested Proofs.C16_Tables Proofs.C16_Heap Proofs.C16_Codec.
+                       Gen.C16_Kernel Model.C16_Kernel
+                       Proofs.C16_Utf8 Proofs.C16_Store Proofs.C16_Nested Proofs.C16_Tables Proofs.C16_Heap Proofs.C16_Codec Proofs.C16_Kernel.
 Local Open Scope Z_scope.
 
 (** ** labels: every string of unicode scalar values survives the UTF-8 storage of HDF5 (non-ASCII labels included) *)
@@ -243,6 +244,61 @@ Theorem C16_codec_roundtrip_absent_labels_refuted : exists m', cm_from_pandas fa
 Proof. exact cm_pandas_invents_taxa. Qed.
 Print Assumptions C16_codec_roundtrip_absent_labels_refuted.
 
+(** ** the kernel expressions of the CURRENT source (Gen/C16_Kernel.v is regenerated from pybrops/core/util/h5py.py, the 18
+    to_hdf5 / from_hdf5 bodies, the genetic-map classes and the variance-matrix codec on every run).  [write_dict_k],
+    [to_hdf5_k], [raw_member_k], [gmap_to_cM_k], [gmap_from_cM_k], [vm_to_pandas_k] (Model/C16_Kernel.v) are the code written with
+    the generated field-name, delete-condition, recursive-call, group-name, decode, unit-conversion and column/index
+    definitions; they ARE the hand model.  A changed expression in the source breaks this theorem. *)
+Theorem C16_kernel_is_model :
+  (forall l f g ow, write_dict_k f g l ow = write_dict VCur f g l ow)
+  /\ (forall s f g o ow, to_hdf5_k s f g o ow = to_hdf5 VCur s f g o ow)
+  /\ (forall g, norm_group_k g = norm_group g)
+  /\ (forall d, raw_member_k d = raw_member true d)
+  /\ (forall ext x, gmap_to_cM_k ext x = PrimFloat.mul hundred x) /\ (forall ext x, gmap_from_cM_k ext x = PrimFloat.mul centi x)
+  /\ (units_of_k "M" = Some UM /\ units_of_k "Morgans" = Some UM /\ units_of_k "cM" = Some UcM /\ units_of_k "centiMorgans" = Some UcM
+      /\ k_gmap_units_M = ["M"; "Morgans"]%string /\ k_gmap_units_cM = ["cM"; "centiMorgans"]%string)
+  /\ (forall grp_cols m, vm_to_pandas_k grp_cols m = vm_to_pandas grp_cols m)
+  /\ k_vm_from_axes = ["female_col"; "male_col"; "trait_col"]%string.
+Proof.
+  split; [exact write_dict_k_model|]. split; [exact to_hdf5_k_model|]. split; [exact norm_group_k_model|]. split; [exact raw_member_k_model|].
+  split; [exact gmap_to_cM_k_model|]. split; [exact gmap_from_cM_k_model|]. split; [exact units_of_k_model|].
+  split; [exact vm_to_pandas_k_model | exact k_vm_from_axes_model].
+Qed.
+Print Assumptions C16_kernel_is_model.
+
+(** the HDF5 round trip and "the last object written is the one read back", about the writer as the source has it now *)
+Theorem C16_kernel_roundtrip_hdf5 : forall (s : cls_spec), In s persistable ->
+  forall (o : obj) (nt : Z) (f f' : file) (g : option str), parents_ok f ->
+  wf_obj s o = true -> to_hdf5_k s f g o true = (f', None) -> from_hdf5 s nt f' g = construct s nt (proj_rd s o).
+Proof. exact kernel_roundtrip. Qed.
+Print Assumptions C16_kernel_roundtrip_hdf5.
+
+Theorem C16_kernel_read_after_writes : forall (s : cls_spec), In s persistable ->
+  forall (os : list obj) (o : obj) (f f' : file) (g : option str) (nt : Z), parents_ok f ->
+  wf_obj s o = true -> write_all_k s f g (os ++ [o]) = (f', None) -> from_hdf5 s nt f' g = construct s nt (proj_rd s o).
+Proof. exact kernel_read_after_writes. Qed.
+Print Assumptions C16_kernel_read_after_writes.
+
+(** genetic maps: the exported genetic-position column is the generated conversion of every position, and the constructor
+    receives the generated back-conversion of every cell of the column handed in (both map classes) *)
+Theorem C16_kernel_gmap_columns : forall ext g,
+  col_of (CS (zs "cM")) (gmap_to_pandas ext UcM g) = Some (map CF (map (gmap_to_cM_k ext) (g_gen g)))
+  /\ col_of (CS (zs "cM")) (gmap_to_pandas ext UM g) = Some (map CF (g_gen g))
+  /\ forall wn wf ag t r, gmap_from_pandas ext UcM wn wf ag t = Some r ->
+       exists c fl g0, col_of (CS (zs "cM")) t = Some c /\ opt_all (map as_float c) = Some fl
+                       /\ g_gen g0 = map (gmap_from_cM_k ext) fl /\ r = gmap_construct ag g0.
+Proof. intros ext g. destruct (gmap_to_pandas_k ext g) as [A B]. split; [exact A|]. split; [exact B|]. intros wn wf ag t r. apply gmap_from_pandas_k. Qed.
+Print Assumptions C16_kernel_gmap_columns.
+
+(** the centiMorgan round trip with the conversions of the current source: refuted in general, exact on the grid k/256 (k <= 1024) *)
+Theorem C16_kernel_gmap_cM_refuted : forall ext, exists x : float, PrimFloat.eqb (gmap_from_cM_k ext (gmap_to_cM_k ext x)) x = false.
+Proof. exact kernel_cM_roundtrip_fails. Qed.
+Print Assumptions C16_kernel_gmap_cM_refuted.
+Theorem C16_kernel_gmap_cM_partial : forall ext,
+  forallb (fun k => feqb (gmap_from_cM_k ext (gmap_to_cM_k ext (grid256 k))) (grid256 k)) (seq 0 1025) = true.
+Proof. exact kernel_cM_roundtrip_grid. Qed.
+Print Assumptions C16_kernel_gmap_cM_partial.
+
 (** non-vacuity: concrete objects meet the hypotheses; the write succeeds; a variance matrix with sorted labels does round-trip *)
 Example C16_hyps_satisfiable :
   (wf_obj spec_ALGM (w_model w_hyper) = true /\ In spec_ALGM persistable /\ Forall (fun kv => snd kv <> None) w_hyper /\ parents_ok []
@@ -250,9 +306,12 @@ Example C16_hyps_satisfiable :
   /\ wf_obj spec_GM w_rich = true /\ wf_obj spec_GM w_poor = true /\ In spec_GM flat_classes
   /\ (exists f2, write_all VCur spec_GM [] w_group [w_rich; w_poor] = (f2, None))
   /\ opt_eqb vm_eqb (vm_from_pandas true (vm_to_pandas true w_vm_sorted)) (Some w_vm_sorted) = true
-  /\ (exists h' o', class_copy [spec_ALGM] 4 true spec_BV [CArr (VArr TF64 [1; 1] [0])] [("mat"%string, HRef 0%nat)] = Some (h', o')).
+  /\ (exists h' o', class_copy [spec_ALGM] 4 true spec_BV [CArr (VArr TF64 [1; 1] [0])] [("mat"%string, HRef 0%nat)] = Some (h', o'))
+  /\ (exists f', write_all_k spec_ALGM [] (Some [109]) [w_model [([120], Some (VInt 1))]; w_model w_hyper] = (f', None))
+  /\ opt_eqb vm_eqb (vm_from_pandas true (vm_to_pandas_k true w_vm_sorted)) (Some w_vm_sorted) = true.
 Proof.
   split; [destruct w_model_wf as [A [B [C D]]]; split; [exact A|]; split; [exact B|]; split; [exact C|]; split; [exact parents_nil | exact D]|].
   destruct w_objs_wf as [A [B C]]. split; [exact A|]. split; [exact B|]. split; [exact C|].
-  split; [eexists; vm_compute; reflexivity|]. split; [exact vm_pandas_sorted_ok|]. eexists. eexists. vm_compute. reflexivity.
+  split; [eexists; vm_compute; reflexivity|]. split; [exact vm_pandas_sorted_ok|]. split; [eexists; eexists; vm_compute; reflexivity|].
+  split; [eexists; vm_compute; reflexivity | exact vm_pandas_sorted_ok_k].
 Qed.
